@@ -103,6 +103,15 @@ func (ex *Exec) resolveInstance(st *State, key string, names []string, args []Va
 			env := &SpecEnv{ex: ex, st: st, vars: map[string]Val{}, pkg: pkg, contract: c}
 			bv, bt := env.eval(b.Expr)
 			arg := args[idx]
+			if u, isU := bv.(UConst); isU {
+				if as, isS := arg.(Scalar); isS {
+					if as.T.S.K == SBV {
+						bv = Scalar{BVC(u.V, as.T.S.W)}
+					} else {
+						bv = Scalar{IntBig(u.V)}
+					}
+				}
+			}
 			if _, isI := arg.(IfaceV); isI {
 				if _, bI := bv.(IfaceV); !bI && bt != nil {
 					if pv, ok := bv.(PtrV); ok && pv.K == PNil {
